@@ -248,8 +248,10 @@ def main(argv):
         "wall_s": round(time.time() - t0, 2), "violations": int(n_unknown),
     }
     if pid != "SELFCHECK":
-        os.makedirs(os.path.join(VERIF, "evidence"), exist_ok=True)
-        with open(os.path.join(VERIF, "evidence", pid + ".json"), "w") as f:
+        evdir = os.environ.get("VERIF_EVIDENCE_DIR") or (os.path.join(VERIF, "evidence") if env.REPO == "/repo"
+                                                          else os.path.join(VERIF, "scratch", "evidence"))
+        os.makedirs(evdir, exist_ok=True)
+        with open(os.path.join(evdir, pid + ".json"), "w") as f:
             json.dump(evidence, f, indent=1, sort_keys=True)
     for ln in lines:
         print(ln)
